@@ -398,17 +398,15 @@ func rdbConcurrentLoaders(t *testing.T, prop string) {
 	if ev.ReplayFile() != "" {
 		return
 	}
-	si, _ := ev.ShardInfo()
-	if si != 0 {
-		return
-	}
+	// every shard of this pass is a fresh process and runs the same body: what is initialised on
+	// first use gets as many concurrent first uses as there are shards
 	var keys []rdbgen.Item
 	for _, it := range rdbcat.Items(1) {
 		if it.Kind == "key" && len(it.Bytes) < 4096 {
 			keys = append(keys, it)
 		}
 	}
-	const loaders = 4
+	const loaders = 8
 	files := make([][]byte, loaders)
 	for g := 0; g < loaders; g++ {
 		var items []rdbgen.Item
@@ -451,30 +449,32 @@ func rdbConcurrentLoaders(t *testing.T, prop string) {
 		}
 		return out, ""
 	}
-	alone := make([][][]byte, loaders)
-	for g := range files {
-		var why string
-		if alone[g], why = parse(files[g]); why != "" {
-			t.Fatalf("sequential parse of file %d fails: %s", g, why)
-		}
-	}
+	// the concurrent phase comes FIRST: the very first use of the loader, its digest and its decoder
+	// in this process happens in several goroutines at once (lazily built tables, first-use
+	// initialisation); the solo reference is produced afterwards
 	var wg sync.WaitGroup
 	var mu sync.Mutex
 	bad := ""
 	rounds := 30
+	first := make([][][]byte, loaders)
+	start := make(chan struct{})
 	for g := 0; g < loaders; g++ {
 		wg.Add(1)
 		go func(g int) {
 			defer wg.Done()
+			<-start
 			for r := 0; r < rounds; r++ {
 				got, why := parse(files[g])
+				if why == "" && r == 0 {
+					first[g] = got
+				}
 				if why == "" {
-					if len(got) != len(alone[g]) {
-						why = "a different number of records"
+					if len(got) != len(first[g]) {
+						why = "a different number of records than in the loader's first round"
 					}
 					for i := 0; why == "" && i < len(got); i++ {
-						if !bytes.Equal(got[i], alone[g][i]) {
-							why = fmt.Sprintf("record %d: payload differs from the one produced when the loader runs alone", i)
+						if !bytes.Equal(got[i], first[g][i]) {
+							why = fmt.Sprintf("record %d: payload differs from the one this loader produced in its first round", i)
 						}
 					}
 				}
@@ -489,7 +489,24 @@ func rdbConcurrentLoaders(t *testing.T, prop string) {
 			}
 		}(g)
 	}
+	close(start)
 	wg.Wait()
+	for g := range files {
+		alone, why := parse(files[g])
+		if why != "" {
+			t.Fatalf("sequential parse of file %d fails: %s", g, why)
+		}
+		if bad == "" && first[g] != nil {
+			if len(alone) != len(first[g]) {
+				bad = fmt.Sprintf("loader %d of %d concurrent loaders delivered %d records, alone it delivers %d", g, loaders, len(first[g]), len(alone))
+			}
+			for i := 0; bad == "" && i < len(alone); i++ {
+				if !bytes.Equal(alone[i], first[g][i]) {
+					bad = fmt.Sprintf("loader %d of %d concurrent loaders, record %d: payload differs from the one produced when the loader runs alone", g, loaders, i)
+				}
+			}
+		}
+	}
 	if bad != "" {
 		ev.Violate(prop+"|concurrent-loaders", bad, c11Case{Sub: "race"})
 	}
